@@ -80,6 +80,12 @@ func (eis *EVMIndexerService) OnStart() error {
 	if lastBlock == -1 {
 		lastBlock = latestBlock
 	}
+	// LastIndexedBlock is the last block that had an Ethereum transaction, not the last block this service
+	// looked at. The blocks after it may have been pruned from the block store since (min-retain-blocks):
+	// they cannot be fetched any more, start at the first block the store still has.
+	if earliest := status.SyncInfo.EarliestBlockHeight; lastBlock < earliest-1 {
+		lastBlock = earliest - 1
+	}
 	for {
 		if latestBlock <= lastBlock {
 			// nothing to index. wait for signal of new block
